@@ -101,4 +101,64 @@ theorem memDisp_decoded (rb7 rel s : BitVec 32) (hs : s ≤ 6#32) :
       have hne : le32 rel ≠ [] := by simp [le32]
       simp [leNat_le32, hl, hne]
 
+/-! ### `EmitVexEvexM` on a `[base64 + disp]` operand -/
+
+/-- model-side `[base64 + disp]` operand -/
+def memBase (size : Nat) (rb : BitVec 32) (d : BitVec 64) : Mem :=
+  { size := size, baseType := 6, baseId := rb.toNat, indexType := 0, indexId := 0, shift := 0, offset := d, seg := 0, bcst := 0, addrType := 0 }
+
+theorem memInfo_gp64 : memInfo 6 0 = 0x0D#32 := by decide
+
+/-- the prefix word `x` of `EmitVexEvexM` for a base-only operand (no index, no broadcast, no {k}) -/
+def xMb (opcode reg vvvvv rb : BitVec 32) : BitVec 32 :=
+  (((reg + (vvvvv <<< 7)) <<< 4) &&& 0xF980#32) ||| ((rb <<< 2) &&& 0x20#32) ||| extractLLMMMMM opcode 0#32
+
+theorem xMb_eq_xR (opcode reg vvvvv rb : BitVec 32) (hb : rb < 16#32) : xMb opcode reg vvvvv rb = xR opcode 0#32 reg vvvvv rb 0#32 := by
+  simp only [xMb, xR]; bv_decide
+
+/-- `EmitVexEvexM` = prefix part, then `EmitModSib` with the (adjusted) opcode word -/
+theorem emitVexEvexM_base_eq (c : Model.X86.Ctx) (opcode reg vvvvv rb : BitVec 32) (size : Nat) (d imm : BitVec 64) (n : Nat)
+    (hm : c.mode64 = true) (hpe : c.preferEvex = false) (hk : c.extraId = 0#32) (hvf : c.vexFlag = true) (hvs : c.vsib = false) :
+    emitVexEvexM c opcode 0#32 (reg + (vvvvv <<< 7)) (memBase size rb d) imm n =
+      (match vexEvexMPrefix c (xMb opcode reg vvvvv rb) opcode 0#32 (memBase size rb d) with
+       | .error e => .error e
+       | .ok v => emitModSib c v.1 0 v.2 0#32 ((reg + (vvvvv <<< 7)) &&& 7#32) rb 0#32 0x0D#32 (memBase size rb d) imm n false) := by
+  unfold emitVexEvexM
+  simp only [memBase, xMb]
+  simp only [rtLabel, hvf, hk, hpe, hvs, memInfo_gp64, segmentPrefix, Model.X86.Ctx.aoMask, hm, oZMask, oER, oSAE, oVex, oVex3]
+  simp only [BitVec.ofNat_toNat, BitVec.setWidth_eq, BitVec.zero_and, BitVec.zero_or, BitVec.or_zero, bne_self_eq_false, Bool.false_eq_true, ↓reduceIte,
+    Bool.false_and, gt_iff_lt, Nat.lt_irrefl, Nat.not_lt_zero, BitVec.zero_shiftLeft, BitVec.and_zero, bind, Except.bind, Bool.not_false,
+    show (1 < 6) = True from by decide, show (0x0D#32 &&& 0x80#32 != 0#32) = false from by decide, List.nil_append, List.length_nil,
+    show ((0:Nat) != 0) = false from by decide]
+  generalize vexEvexMPrefix c _ opcode 0#32 _ = r
+  cases r <;> rfl
+
+theorem cdisp8Shl_low (t : BitVec 32) : ∃ v : BitVec 32, cdisp8Shl t = v <<< 13 := ⟨_, rfl⟩
+
+/-- the prefix part without broadcast: EVEX (opcode word adjusted by the compressed-displacement table), VEX3 or VEX2 (CDSHL cleared) -/
+theorem vexEvexMPrefix_nobcst (c : Model.X86.Ctx) (x opcode : BitVec 32) (m : Mem) (hx20 : x &&& 0x80180040#32 = 0#32) :
+    vexEvexMPrefix c x opcode 0#32 m =
+      .ok (if x &&& 0x00D78150#32 ≠ 0#32 then
+             (le32 (evexWord x opcode) ++ [opcode.truncate 8],
+              opcode + cdisp8Shl (((opcode >>> 13) &&& 0x18#32) + ((opcode >>> 25) &&& 0x04#32) + ((evexWord x opcode >>> 29) &&& 0x3#32)))
+           else if vexPrep x opcode 0#32 &&& 0x8000807E#32 ≠ 0#32 then
+             (le32 (vex3Word (vexPrep x opcode 0#32) (opcode &&& ~~~kCDSHL_Mask)), opcode &&& ~~~kCDSHL_Mask)
+           else ([0xC5#8, (vex2Byte (vexPrep x opcode 0#32)).truncate 8, opcode.truncate 8], opcode &&& ~~~kCDSHL_Mask)) := by
+  have hiff : (x &&& 0x80DF8110#32 = 0#32) ↔ (x &&& 0x00D78150#32 = 0#32) := by
+    constructor <;> intro h <;> bv_decide
+  have hb28 : ((evexWord x opcode &&& 0x10000000#32) != 0#32) = false := by
+    simp only [evexWord]; bv_decide
+  unfold vexEvexMPrefix
+  by_cases h : x &&& 0x00D78150#32 = 0#32
+  · have h' : x &&& 0x80DF8110#32 = 0#32 := hiff.mpr h
+    simp only [h', h, bne_self_eq_false, Bool.false_eq_true, ↓reduceIte, ne_eq, not_true_eq_false]
+    by_cases h3 : vexPrep x opcode 0#32 &&& 0x8000807E#32 = 0#32
+    · simp [h3]
+      simp only [kCDSHL_Mask]; bv_decide
+    · simp [h3]
+  · have h' : ¬ x &&& 0x80DF8110#32 = 0#32 := fun hh => h (hiff.mp hh)
+    simp [h', h, hb28]
+    obtain ⟨v, hv⟩ := cdisp8Shl_low ((opcode >>> 13 &&& 24#32) + (opcode >>> 25 &&& 4#32) + (evexWord x opcode >>> 29 &&& 3#32))
+    rw [hv]; bv_decide
+
 end AsmjitVerif.Props.C01
